@@ -498,7 +498,7 @@ func init() {
 		ID: "C04", Level: "exploration", Engine: "E5 wire (native contract parameters and records on a faulty stream)",
 		Rule: fmt.Sprintf("registry of %d parameter/record types: %s. case = one random value of one type (all exported fields filled by reflection, constraints of well-formed values applied, maps with 0..12 entries): "+
 			"encode -> simulated stream (1..k bytes per read) -> decode must give an equal value (structural comparison, nil==empty, big.Int by value) that re-encodes to the same bytes; every map-bearing value is additionally rebuilt with fresh maps in a "+
-			"plan-permuted insertion order (4 copies x 4 encodings in every step, 16 x 8 in map-order steps) and all encodings must be byte-identical; then one fault mode: truncation at every point (must be rejected except at a documented legacy cut), "+
+			"plan-permuted insertion order (16 copies x 8 encodings whenever a map has >= 2 entries, before anything else is compared) and all encodings must be byte-identical; then one fault mode: truncation at every point (must be rejected except at a documented legacy cut), "+
 			"bit flips, boundary counts (0xFFFF, 0x10000, 2^46, 2^63, 2^64-1 as var-int and as fixed u64/u32) injected at every offset, garbage: never a panic, accepted damaged input must re-encode/decode idempotently. side_chain_manager.SideChain / "+
 			"RegisterSideChainParam are encoded against a real ledger (ledger.DefLedger) on network id 3 (extra info always written) or 1 (extra info gated by the fork height: expected to be dropped). evaluations = decoder invocations judged. "+
 			"Non-trivial: a value with a non-empty variable-length field on which the step's checks all ran; distinct by (type, mode, outcome digest)", len(recTypes), names),
@@ -675,6 +675,38 @@ func execC04(run *kernel.Run) {
 			c.fail("encode-error-"+t.name, "%s: well-formed value does not serialise: %v", t.name, err)
 			continue
 		}
+		// (ii) map-order canonicality. Runs first: an order-dependent encoder would make every later
+		// byte comparison of this step a coin toss, and only the 128-sample check replays reliably.
+		if t.hasMap {
+			K, R := 16, 8
+			if mapStats(reflect.ValueOf(v), 0) < 2 {
+				K, R = 2, 2
+			}
+			bad := false
+			for kk := 0; kk < K && !bad; kk++ {
+				cp := copyPerm(reflect.ValueOf(v), rng).Interface()
+				for r := 0; r < R; r++ {
+					c.evals++
+					b, err, ok := c.safeEnc(t, cp)
+					if !ok {
+						bad = true
+						break
+					}
+					if err != nil || !bytes.Equal(b, enc) {
+						c.fail("map-order-dependent-"+t.name, "%s: the same value built with another map insertion order (copy %d, encoding %d) serialises to %s instead of %s (err=%v)", t.name, kk, r, short(b), short(enc), err)
+						bad = true
+						break
+					}
+				}
+			}
+			if bad {
+				continue
+			}
+			run.Fault("map_rebuilt_permuted")
+			if mapStats(reflect.ValueOf(v), 0) >= 3 {
+				run.Probe("map_order_checked_3plus_entries")
+			}
+		}
 		// (i) round trip through the stream
 		arrived := deliver(enc, k, kernel.NewRNG(kernel.Derive(run.Plan.Seed, "c04rd", salt)))
 		if !bytes.Equal(arrived, enc) {
@@ -717,37 +749,6 @@ func execC04(run *kernel.Run) {
 				continue
 			}
 			run.Probe("storage_item_raw_roundtrip")
-		}
-		// (ii) map-order canonicality
-		if t.hasMap {
-			K, R := 4, 4
-			if mode == c04MapOrder {
-				K, R = 16, 8
-			}
-			bad := false
-			for kk := 0; kk < K && !bad; kk++ {
-				cp := copyPerm(reflect.ValueOf(v), rng).Interface()
-				for r := 0; r < R; r++ {
-					c.evals++
-					b, err, ok := c.safeEnc(t, cp)
-					if !ok {
-						bad = true
-						break
-					}
-					if err != nil || !bytes.Equal(b, enc) {
-						c.fail("map-order-dependent-"+t.name, "%s: the same value built with another map insertion order (copy %d, encoding %d) serialises to %s instead of %s (err=%v)", t.name, kk, r, short(b), short(enc), err)
-						bad = true
-						break
-					}
-				}
-			}
-			if bad {
-				continue
-			}
-			run.Fault("map_rebuilt_permuted")
-			if mapStats(reflect.ValueOf(v), 0) >= 3 {
-				run.Probe("map_order_checked_3plus_entries")
-			}
 		}
 		complete := true
 		cut := -1
